@@ -817,7 +817,9 @@ impl<'a> Printer<'a> {
     fn def_text(&mut self, var: VarId, mutable: bool, value: &Expr) -> String {
         let name = self.name(var);
         let is_fn = matches!(value.kind, EKind::Lambda(_));
-        let ann = if is_fn || value.ty.is_fn() { false } else { self.want_annot(0) };
+        // a definition whose value is a function literal carries its types in the literal; any other definition can be
+        // annotated, also with a function type (`h: fn int -> int : g`)
+        let ann = if is_fn { false } else { self.want_annot(0) };
         let v = self.expr_t(value, true);
         if ann {
             let vt = self.p.var(var).ty.clone();
